@@ -91,8 +91,31 @@ def same_invocation_replay_cases(tier, seed):
                 i += 1
 
 
+def unreadable_on_replay_cases(tier, seed):
+    """A completed operation whose recorded payload cannot be read back in a later invocation (the custom serdes' store is down):
+    failing the invocation is fine, handing the workflow some other value is not."""
+    i = 0
+    ops = {"step": {"k": "step", "val": {"status": "SHIPPED"}, "serdes": "outage"},
+           "wfc": {"k": "wfc", "init": {"status": "NEW"}, "checks": [{"do": "ok", "val": {"status": "PACKED"}}, {"do": "ok", "val": {"status": "SHIPPED"}}],
+                   "decisions": [("cont", 1), ("stop",)], "serdes": "outage"},
+           "child": {"k": "child", "body": [{"k": "step", "val": 1}], "result": {"status": "SHIPPED"}, "cfg": {"serdes": "outage"}},
+           "cb": {"k": "cb", "cfg": {"serdes": "outage"}}}
+    for name, op in ops.items():
+        for shape in ("top", "branch"):
+            body = [dict(op), {"k": "wait", "s": 1}, {"k": "step", "val": "after"}, {"k": "wait", "s": 1}, {"k": "step", "val": "end"}]
+            cpath = "0"
+            if shape == "branch":
+                body = [{"k": "par", "branches": [{"body": body}, {"body": [{"k": "step", "val": 1}]}], "cfg": {"preset": "all_completed"}}]
+                cpath = "0/b0/0"
+            world = {"complete": {cpath: {"when": "immediate", "status": "SUCCEEDED", "result": '{"status": "SHIPPED"}'}}, "timers": "all"}
+            yield {"label": "c01-unreadable-on-replay|%s|%s" % (name, shape), "prog": {"body": body}, "prog_seed": 26900 + i, "pattern": {"p": "plain"}, "world": world,
+                   "max_inv": 8, "max_raises": 2}
+            i += 1
+
+
 def explicit_all(tier, seed):
     yield from explicit(tier, seed)
+    yield from unreadable_on_replay_cases(tier, seed)
     yield from merge_window_cases(tier, seed)
     yield from same_invocation_replay_cases(tier, seed)
 
